@@ -1,5 +1,6 @@
 """C16 — expansion is total and deterministic."""
 import collections
+import re
 import subprocess
 
 from .. import corpus
@@ -64,6 +65,9 @@ def angle_groups(toks):
 # legal (or at least parseable) but unusual spellings: every one must expand without a panic, as is and mutated
 EXTRA_SEEDS = [
     # a bare trait object with several bounds as the (unsized) field: `&dyn A + B` in the output would be ambiguous
+    ('A', 'Debug, Clone, PartialEq, Hash, Default', 'struct X { a: u8, b: () }'),
+    ('D', '', '#[derive_ex(Debug, PartialOrd, PartialEq)] struct X((), (u8, ()));'),
+    ('A', 'Debug, Clone', 'enum E { A((), ()), B { x: ((),) } }'),
     ('A', 'Deref, DerefMut', 'struct X(dyn ::core::fmt::Debug + Sync);'),
     # the recorded finding (known_findings.json): a bare trait object written with a trailing `+`
     ('A', 'Clone, Mul', 'struct X { c: dyn ::core::fmt::Debug + }'),
@@ -299,6 +303,12 @@ class C16(Prop):
             text = ('#[derive_ex(%s)] %s' % (a, it)) if m == 'A' else '#[derive(Ex)] ' + it
             if any(p[0] == 'LEXERR' for p in parts):
                 stats['not-lexable'] += 1
+                continue
+            if re.search(r'([{,]|\]) (pub (\( [a-z]+ \) )?)?_ :', ' ' + it):
+                # a field NAMED `_` (`struct X { _ : u32 }`): syn accepts it (the retired `unnamed_fields` syntax), rustc does
+                # not ("expected identifier, found reserved identifier `_`") - not a syntactically valid item, so not an
+                # input the property quantifies over
+                stats['field-named-underscore'] += 1
                 continue
             end = next((p for p in parts if p[0] == 'END'), None)
             bad = None
